@@ -184,7 +184,9 @@ def external_sig():
     try:
         import polars as pl
 
-        pl_sc = pl.using_string_cache()
+        with warnings.catch_warnings():
+            warnings.simplefilter("ignore")  # deprecated in newer polars; the probe must stay quiet under "always"
+            pl_sc = pl.using_string_cache()
     except Exception:  # noqa: BLE001
         pl_sc = None
     return (cwd, hash(frozenset(os.environ.items())), ctx.prec, ctx.rounding, loc, sys.getrecursionlimit(),
